@@ -217,7 +217,7 @@ Section Order.
 
   Lemma cov_len_pos c : c < n -> 1 <= length (cov c).
   Proof.
-    intros H. pose proof (cov_refl c H) as Hin. destruct (cov c); [destruct Hin|cbn; lia].
+    intros H. pose proof (cov_refl c H) as Hin. destruct (cov c); [destruct Hin|cbn [length]; lia].
   Qed.
 
   (* a proper ancestor has a parent link above the descendant *)
